@@ -230,8 +230,12 @@ def stalled_writer_bounds(ctx: Ctx) -> None:
                     try:
                         for _ in range(nbytes // 1024):
                             cli.send_voice_assistant_audio(b"\x00" * 1024)
+                    except APIConnectionError:
+                        res.count("observed/c09/stalled-writer/library-refused-to-queue-more")    # (its right; the awaited calls below are still bounded)
                     except Exception as e:  # noqa: BLE001
-                        res.inconclusive.append(f"stalled writer: queuing raised {e!r}")
+                        res.evaluations += 1
+                        res.violation(f"C09/raw-exception/send_voice_assistant_audio/{type(e).__name__}", f"{framing}: queuing data for a device that stopped reading "
+                                      f"raised {e!r}", {"spec": None, "stalled_writer": {"framing": framing, "queued_bytes": nbytes, "then": then}}, trace=sim.trace(30))
                         continue
                     sim.run_for(0.01)
                     paused = any(getattr(t, "_protocol_paused", False) for t in sim.transports)
@@ -326,6 +330,7 @@ def shard(ctx: Ctx) -> None:
     sweep.standard_sweep(ctx, PROP)
     sweep.same_turn_pairs_sweep(ctx, PROP)
     sweep.stalled_connect_sweep(ctx, PROP)
+    sweep.high_water_sweep(ctx, PROP)
     sweep.abandoned_disconnect_sweep(ctx, PROP)
     sweep.connect_fault_sweep(ctx, PROP)
     sweep.duplicate_answers_sweep(ctx, PROP)
